@@ -865,6 +865,12 @@ func dbgRun(p *dbgPlan, prop string) {
 
 	src, sinks := dbgProgram(p)
 	plain := dbgExec(p, src, false, prop)
+	if strings.HasSuffix(plain.result, "| <nil>") {
+		simrt.Count("program_ended_normally")
+	} else {
+		simrt.Count("program_ended_with_error")
+		simrt.Note("plain run ended with %s", plain.result)
+	}
 	dbgd := dbgExec(p, src, true, prop)
 	if prop != "C15" || p.StopAtRound > 0 {
 		return // (a run whose threads were stopped is not compared with the plain run)
